@@ -16,7 +16,8 @@ incremental).
 
 Usage: shadows.py [--repo DIR] [--build DIR] [--engine native|shuttle]
 """
-import argparse, os, sys, shutil, tomllib, json
+import argparse
+import re, os, sys, shutil, tomllib, json
 
 VERIF = os.path.dirname(os.path.dirname(os.path.abspath(__file__)))
 
@@ -154,10 +155,35 @@ def neon_model(rel, text):
             pending = False
     return "\n".join(out)
 
-TRANSFORMS = {"flip_fixslice": flip_fixslice, "neon_model": neon_model}
+SYNC_PAT = re.compile(r"\b(core|std)::sync::")
+
+def shuttle_sync(rel, text):
+    """shuttle workspace: every synchronisation primitive a crate uses (core/std atomics, std locks) becomes
+    shuttle's, i.e. a scheduling point of the controlled scheduler. The unchanged tree uses none."""
+    return SYNC_PAT.sub("shuttle::sync::", text)
+
+def uses_sync(src_dir):
+    for root, _d, files in os.walk(src_dir):
+        for fn in files:
+            if fn.endswith(".rs"):
+                with open(os.path.join(root, fn)) as f:
+                    if SYNC_PAT.search(f.read()):
+                        return True
+    return False
+
+def compose(*fs):
+    def t(rel, text):
+        for f in fs:
+            if f:
+                text = f(rel, text)
+        return text
+    return t
+
+TRANSFORMS = {"flip_fixslice": flip_fixslice, "neon_model": neon_model, "shuttle_sync": shuttle_sync,
+              "flip_fixslice+shuttle_sync": compose(flip_fixslice, shuttle_sync)}
 A64_SHADOWS = ["aes_auto", "aes_auto_z", "aes_autoc_z", "aes_autoc", "kuz", "kuz_z"]
 
-def gen_shadow(build, repo, name, rdir, cfgs, feats, transform, sub="shadows"):
+def gen_shadow(build, repo, name, rdir, cfgs, feats, transform, sub="shadows", extra_deps=None):
     pdir = os.path.join(build, sub, name)
     with open(os.path.join(repo, rdir, "Cargo.toml"), "rb") as f:
         man = tomllib.load(f)
@@ -182,7 +208,9 @@ def gen_shadow(build, repo, name, rdir, cfgs, feats, transform, sub="shadows"):
     out.append(f"path = {json.dumps(libpath)}")
     out.append("doctest = false\ntest = false\n")
     s = "\n".join(out) + "\n"
-    s += dep_table("dependencies", man.get("dependencies", {})) + "\n"
+    deps = dict(man.get("dependencies", {}))
+    deps.update(extra_deps or {})
+    s += dep_table("dependencies", deps) + "\n"
     for tgt, tv in man.get("target", {}).items():
         if "dependencies" in tv:
             s += dep_table(f"target.{json.dumps(tgt)}.dependencies".replace('"', "'", 2)
@@ -278,27 +306,50 @@ def main():
     if not os.path.exists(os.path.join(ws4, "Cargo.lock")):
         shutil.copy(lock_dst, os.path.join(ws4, "Cargo.lock"))
 
-    # shuttle workspace: same shadows, cpufeatures seam with shuttle atomics
+    # shuttle workspace: the whole simulator library and every shadow; crates whose source uses synchronisation
+    # primitives get an instrumented source copy (primitives -> shuttle's), the others are shared with ws
     ws2 = os.path.join(build, "ws-shuttle")
+    instrumented = []
+    for (name, rdir, cfgs, feats, tr) in vs:
+        if uses_sync(os.path.join(repo, rdir, "src")):
+            t2 = "flip_fixslice+shuttle_sync" if tr == "flip_fixslice" else "shuttle_sync"
+            gen_shadow(build, repo, name, rdir, cfgs, feats, t2, sub="shadows-sh", extra_deps={"shuttle": "0.9"})
+            instrumented.append(name)
+    shdir = os.path.join(build, "shadows-sh")
+    if os.path.isdir(shdir):
+        for d in os.listdir(shdir):
+            if d not in instrumented:
+                shutil.rmtree(os.path.join(shdir, d))
     m = "# GENERATED by /verif/gen/shadows.py - do not edit\n"
     m += '[package]\nname = "sim-shuttle"\nversion = "0.0.0"\nedition = "2024"\npublish = false\nautobins = false\n\n'
+    m += f'[lib]\nname = "sim"\npath = {json.dumps(os.path.join(simsrc, "src", "lib.rs"))}\ndoctest = false\n\n'
     m += f'[[bin]]\nname = "sim-shuttle"\npath = {json.dumps(os.path.join(VERIF, "sim-shuttle", "src", "main.rs"))}\ntest = false\n\n'
     m += "[dependencies]\n"
     m += 'cipher = "=0.5.0-pre.8"\n'
     m += 'cpufeatures = { version = "0.2", features = ["shuttle"] }\n'
     m += 'shuttle = "0.9"\n'
-    for name in ["aes_auto_z", "aes_soft_z"]:
-        m += f'{name} = {{ path = "../shadows/{name}" }}\n'
-    m += "\n[profile.release]\nopt-level = 2\ndebug = 0\npanic = \"unwind\"\n"
+    m += 'serde_json = "1"\n'
+    m += 'libc = "0.2"\n'
+    for (name, *_r) in vs:
+        sub = "shadows-sh" if name in instrumented else "shadows"
+        m += f'{name} = {{ path = "../{sub}/{name}" }}\n'
+    m += "\n[profile.release]\nopt-level = 2\ndebug = 0\ncodegen-units = 16\nincremental = false\npanic = \"unwind\"\n"
     m += f'\n[patch.crates-io]\ncpufeatures = {{ path = {json.dumps(os.path.join(VERIF, "seam", "cpufeatures"))} }}\n'
     m += "\n[workspace]\n"
     write_if_changed(os.path.join(ws2, "Cargo.toml"), m)
     write_if_changed(os.path.join(ws2, ".cargo", "config.toml"),
                      f'[net]\noffline = true\n[build]\ntarget-dir = {json.dumps(os.path.join(build, "target-shuttle"))}\n')
+    # the same workspace without instrumentation (fallback when an instrumented source does not compile)
+    ws2p = os.path.join(build, "ws-shuttle-plain")
+    write_if_changed(os.path.join(ws2p, "Cargo.toml"), m.replace("../shadows-sh/", "../shadows/"))
+    write_if_changed(os.path.join(ws2p, ".cargo", "config.toml"),
+                     f'[net]\noffline = true\n[build]\ntarget-dir = {json.dumps(os.path.join(build, "target-shuttle"))}\n')
+    write_if_changed(os.path.join(build, "shuttle-instrumented.json"), json.dumps(instrumented))
     lock_src = os.path.join(VERIF, "sim-shuttle", "Cargo.lock")
-    lock_dst = os.path.join(ws2, "Cargo.lock")
-    if not os.path.exists(lock_dst):
-        shutil.copy(lock_src if os.path.exists(lock_src) else os.path.join(repo, "Cargo.lock"), lock_dst)
+    for w in (ws2, ws2p):
+        lock_dst = os.path.join(w, "Cargo.lock")
+        if not os.path.exists(lock_dst):
+            shutil.copy(lock_src if os.path.exists(lock_src) else os.path.join(repo, "Cargo.lock"), lock_dst)
     with open(os.path.join(build, "variants.json"), "w") as f:
         json.dump([{"name": n, "dir": d, "cfgs": c, "features": ft, "transform": t}
                    for (n, d, c, ft, t) in vs], f, indent=1)
